@@ -219,7 +219,9 @@ func (s *session) do(o wop) {
 			if derr != nil {
 				return
 			}
-			ch, err = l.Enroll(ctx, nc)
+			if ch, err = l.Enroll(ctx, nc); err != nil {
+				nc.Close() // not accepted: the connection is still the caller's
+			}
 		}
 		if err == nil {
 			go func() {
